@@ -68,7 +68,9 @@ class G:
         if c < 0.71:
             return ["name", "Flag"]
         if c < 0.76:
-            return ["Enum", r.choice([B, ["name", "Int16ul"]]), [["one", 1], ["two", 2]]]
+            sub = r.choice([B, ["name", "Int16ul"]])
+            return r.choice([["Enum", sub, [["one", 1], ["two", 2]]], ["EnumClass", sub, [["red", 1], ["green", 2], ["blue", 200]]], ["EnumMixed", sub, [["red", 1], ["green", 2]], [["blue", 3]]],
+                             ["Enum", sub, [["zero", 0], ["max", 255]]]])
         if c < 0.81:
             return ["FlagsEnum", r.choice([B, ["name", "Int16ub"], ["name", "Int16ul"]]), [["a", 1], ["b", 2], ["h", 128]]]
         if c < 0.85:
@@ -560,6 +562,7 @@ def run(ctx):
         for sub in (B, ["name", "Int16ub"], ["name", "Int16ul"], ["name", "Int32ul"], ["name", "Int24ub"], ["BytesInteger", 3, False, True]):
             run_recipe(ctx, rng, ["Struct", [["h", B], ["f", ["FlagsEnum", sub, [["a", 1], ["b", 2], ["c", 0x40], ["d", 0x80], ["e", 0x100], ["z", 0x8000]] if sub != B else [["a", 1], ["b", 2], ["d", 0x80]]]], ["t", B]]])
             run_recipe(ctx, rng, ["Struct", [["e", ["Enum", sub, [["one", 1], ["two", 2]]]], ["arr", ["Array", 2, ["Enum", sub, [["one", 1]]]]]]])
+            run_recipe(ctx, rng, ["Struct", [["c", ["EnumClass", sub, [["red", 1], ["green", 2]]]], ["m", ["EnumMixed", sub, [["red", 1], ["green", 2]], [["blue", 3]]]], ["arr", ["Array", 3, ["EnumMixed", sub, [["x", 0]], [["y", 1]]]]]]])
     # single-member structs for every leaf kind (so that one defect does not mask the others)
     g = G(rng)
     for i in range(ctx.pick(2000, 20000) // ctx.nworkers):
